@@ -8,6 +8,7 @@ require (
 	github.com/slackhq/nebula v0.0.0
 	golang.org/x/crypto v0.54.0
 	golang.org/x/sys v0.47.0
+	golang.org/x/tools v0.45.0
 	google.golang.org/protobuf v1.36.11
 )
 
@@ -32,7 +33,9 @@ require (
 	github.com/vishvananda/netlink v1.3.1 // indirect
 	github.com/vishvananda/netns v0.0.5 // indirect
 	go.yaml.in/yaml/v3 v3.0.5 // indirect
+	golang.org/x/mod v0.36.0 // indirect
 	golang.org/x/net v0.57.0 // indirect
+	golang.org/x/sync v0.22.0 // indirect
 	golang.org/x/term v0.45.0 // indirect
 	gvisor.dev/gvisor v0.0.0-20240423190808-9d7a357edefe // indirect
 )
